@@ -213,6 +213,17 @@ def _deleted_cie_prefix(spec, mods):
         # "the whole remaining block")
         if cnt == len(b["i"]) and any(d[0] not in Lg.REQUIRED_CFI for d in ds):
             return True
+    # the same through a partial deletion at offset 0: an earlier block was deleted wholly, its
+    # .cfi_endproc (or remember/restore) was re-homed in front of this block's offset-0 directives, the
+    # split then puts everything from that .cfi_endproc on into the piece that is removed
+    order = [b["n"] for s_ in spec["sections"] for b in s_["blocks"]]
+    whole = {bn for bn, cnt in gone.items() if cnt == len(Lg.block_of(spec, bn)[1]["i"])}
+    for m in mods:
+        if m["op"] in ("del", "rep") and m["k"] == 0 and m.get("n", 0) > 0:
+            b = Lg.block_of(spec, m["b"])[1]
+            ds = (b.get("cfi") or {}).get("0", [])
+            if any(d[0] not in Lg.REQUIRED_CFI for d in ds) and any(order.index(x) < order.index(m["b"]) for x in whole):
+                return True
     return False
 
 
